@@ -1,10 +1,10 @@
 package main
 
 import (
-	"os"
 	"fmt"
 	"go/token"
 	"go/types"
+	"os"
 	"sort"
 	"strings"
 
@@ -88,6 +88,8 @@ func init() {
 			ruleC09A2(r)
 			ruleC09A3(r)
 			ruleC09A4(r, le)
+			rulePublishedFrozen(r, "A5")
+			ruleGlobalsUnderLock(r, le, "A6")
 		},
 	})
 }
@@ -825,5 +827,176 @@ func ruleC09A4(r *Run, le *LockEngine) {
 	}
 	if n == 0 {
 		r.Check("stores after go", true, "", "", "no unlocked store to a field follows the start of a goroutine that reads it unlocked")
+	}
+}
+
+// rulePublishedFrozen: a pointer handed to other goroutines through atomic.Pointer.Store (or atomic.Value.Store) is a
+// publication: readers dereference it without a lock. The variable it points to must not be written afterwards — every
+// store into it that can be reached from the publication passes the variable's own allocation first (a fresh variable
+// per round). A loop that publishes &v of a variable declared outside the loop and assigns v again in a later round
+// changes what the readers are looking at (a data race, and a value nobody chose to publish).
+func rulePublishedFrozen(r *Run, id string) {
+	r.Begin(id, "published variables are frozen: after &v has been stored into an atomic.Pointer/atomic.Value, no store into v is reachable without passing the allocation of v again", 0)
+	p := r.P
+	n := 0
+	for _, fn := range p.Funcs {
+		if !strings.HasPrefix(fnPkgPath(fn), modPath+"/") || fn.Blocks == nil {
+			continue
+		}
+		k := 0
+		allInstrs(fn, func(ins ssa.Instruction) {
+			cc := instrCall(ins)
+			if cc == nil || len(cc.Args) < 2 {
+				return
+			}
+			o := calleeObj(cc)
+			if o == nil || o.Pkg() == nil || o.Pkg().Path() != "sync/atomic" || (o.Name() != "Store" && o.Name() != "Swap" && o.Name() != "CompareAndSwap") {
+				return
+			}
+			if rn := recvNamed(o); rn != "Pointer" && rn != "Value" {
+				return
+			}
+			pub := cc.Args[len(cc.Args)-1]
+			if mi, isMI := pub.(*ssa.MakeInterface); isMI {
+				pub = mi.X
+			}
+			a, isA := pub.(*ssa.Alloc)
+			if !isA {
+				return
+			}
+			n++
+			k++
+			w := reachesWithout(ins, func(x ssa.Instruction) bool {
+				st, isSt := x.(*ssa.Store)
+				if !isSt {
+					return false
+				}
+				return objectRoot(st.Addr) == ssa.Value(a)
+			}, func(x ssa.Instruction) bool { return x == ssa.Instruction(a) })
+			r.Check(fmt.Sprintf("%s publication#%d", fnName(fn), k), w == nil, posOf(p, w), fnName(fn), "the variable whose address was published at "+posOf(p, ins)+" is written again here: readers that loaded the pointer see the new value (or a torn one)")
+		})
+	}
+	r.Stat("publications", n)
+	if n == 0 {
+		r.Check("publications", true, "", "", "no address of a local variable is stored into an atomic.Pointer or atomic.Value")
+	}
+}
+
+// ruleGlobalsUnderLock: a package-level object of a type that is not safe for concurrent use (bufio.Reader/Writer,
+// bytes.Buffer, strings.Builder, math/rand.Rand, a map that is written after init) is shared by every goroutine that
+// calls into the package. Every use outside package initialisation happens with some mutex held, and all uses agree on
+// one mutex.
+func ruleGlobalsUnderLock(r *Run, le *LockEngine, id string) {
+	r.Begin(id, "shared package-level state is locked: every method call on a package-level bufio.Reader/bufio.Writer/bytes.Buffer/strings.Builder/math/rand.Rand, and every access to a package-level map that is written outside init, is made with a mutex held, the same one at every site", 0)
+	p := r.P
+	unsafeType := func(t types.Type) bool {
+		switch deref(t).String() {
+		case "bufio.Reader", "bufio.Writer", "bufio.ReadWriter", "bytes.Buffer", "strings.Builder", "math/rand.Rand", "math/rand/v2.Rand":
+			return true
+		}
+		return false
+	}
+	type use struct {
+		at   ssa.Instruction
+		held map[string]int
+		wr   bool
+	}
+	uses := map[*ssa.Global][]use{}
+	globalOf := func(v ssa.Value) *ssa.Global {
+		for i := 0; i < 4; i++ {
+			switch x := v.(type) {
+			case *ssa.Global:
+				return x
+			case *ssa.UnOp:
+				if x.Op != token.MUL {
+					return nil
+				}
+				v = x.X
+			case *ssa.FieldAddr:
+				v = x.X
+			default:
+				return nil
+			}
+		}
+		return nil
+	}
+	for _, fn := range p.Funcs {
+		if !strings.HasPrefix(fnPkgPath(fn), modPath+"/") || fn.Blocks == nil || (fn.Parent() == nil && (fn.Name() == "init" || strings.HasPrefix(fn.Name(), "init#"))) {
+			// (function literals written in package initialisation are stored and run later: they count)
+			continue
+		}
+		allInstrs(fn, func(ins ssa.Instruction) {
+			switch x := ins.(type) {
+			case *ssa.MapUpdate:
+				if g := globalOf(x.Map); g != nil && g.Pkg != nil && strings.HasPrefix(g.Pkg.Pkg.Path(), modPath) {
+					uses[g] = append(uses[g], use{ins, le.HeldAt(ins), true})
+				}
+			case *ssa.Lookup:
+				if _, isMap := x.X.Type().Underlying().(*types.Map); isMap {
+					if g := globalOf(x.X); g != nil && g.Pkg != nil && strings.HasPrefix(g.Pkg.Pkg.Path(), modPath) {
+						uses[g] = append(uses[g], use{ins, le.HeldAt(ins), false})
+					}
+				}
+			default:
+				cc := instrCall(ins)
+				if cc == nil || len(cc.Args) == 0 {
+					return
+				}
+				// a method call on the object, or the object handed to a function that will use it
+				for _, a := range cc.Args {
+					v := a
+					if mi, isMI := v.(*ssa.MakeInterface); isMI {
+						v = mi.X
+					}
+					if g := globalOf(v); g != nil && unsafeType(v.Type()) && g.Pkg != nil && strings.HasPrefix(g.Pkg.Pkg.Path(), modPath) {
+						uses[g] = append(uses[g], use{ins, le.HeldAt(ins), true})
+					}
+				}
+			}
+		})
+	}
+	var gs []*ssa.Global
+	for g := range uses {
+		gs = append(gs, g)
+	}
+	sort.Slice(gs, func(i, j int) bool { return gs[i].String() < gs[j].String() })
+	n := 0
+	for _, g := range gs {
+		us := uses[g]
+		written := false
+		for _, u := range us {
+			if u.wr {
+				written = true
+			}
+		}
+		if !written {
+			continue // a table that is only read after init
+		}
+		n++
+		common := map[string]bool{}
+		for k := range us[0].held {
+			common[k] = true
+		}
+		for _, u := range us[1:] {
+			for k := range common {
+				if _, ok := u.held[k]; !ok {
+					delete(common, k)
+				}
+			}
+		}
+		var first ssa.Instruction
+		for _, u := range us {
+			if len(u.held) == 0 && first == nil {
+				first = u.at
+			}
+		}
+		if first == nil {
+			first = us[0].at
+		}
+		r.Check(g.String()+" used under one lock", len(common) > 0, posOf(p, first), fnName(first.Parent()), fmt.Sprintf("%d use(s) outside init; no mutex is held at all of them: goroutines calling into the package at the same moment share this object without synchronisation", len(us)))
+	}
+	r.Stat("shared_globals", n)
+	if n == 0 {
+		r.Check("shared package-level state", true, "", "", "no package-level object of a non-thread-safe type is used outside init")
 	}
 }
